@@ -204,6 +204,16 @@ func runC07(c *fw.Ctx, idx int) fw.Result {
 			}
 			ts = append(ts, gen.FastaRec{ID: fmt.Sprintf("t%d", i), Desc: fmt.Sprintf("t%d", i), Seq: s})
 		}
+		if measure != "tn93" && r.Chance(0.08) {
+			// a pair without a single agreeing column: raw is n/(n+0) = 1, the top of its range
+			b := []byte(qs[0].Seq)
+			for k := range b {
+				if model.IsACGT(b[k]) {
+					b[k] = gen.OtherBase(r, model.Upper(b[k]))
+				}
+			}
+			ts[r.Intn(nt)].Seq = string(b)
+		}
 		if r.Chance(0.25) {
 			// a target that carries the name of a query (an older version of the same genome in
 			// the database): distances are functions of the two sequences, never of the names
